@@ -172,6 +172,20 @@ def minimise(runner, case, vclass, allow_invalid, budget=250):
                 break
         else:
             chunk = max(1, chunk // 2)
+    # 3. pairs of non-adjacent steps (e.g. an insertion and the removal that undoes it)
+    progress = True
+    while progress and runner.n - start < budget:
+        progress = False
+        for i in range(len(steps)):
+            for j in range(i + 1, len(steps)):
+                if runner.n - start >= budget:
+                    break
+                cand = steps[:i] + steps[i + 1:j] + steps[j + 1:]
+                if fails(cand):
+                    steps, progress = cand, True
+                    break
+            if progress:
+                break
     r = runner.run(case.kind, header, steps)
     text = replay_text(case.kind, header, steps)
     if r is not None:
